@@ -1,14 +1,18 @@
 // C20 (unit level): capture_delta / apply_delta round trip over real TSOutput / TSInput endpoints.
 //   Output A receives a bounded tick history through the ordinary output mutation API (the history a
 //   producer node could create); every cycle in which A ticked, d = capture_delta(inA) is applied to a
-//   second output B with apply_delta (exactly what dense_record_impl / replay_impl do per cycle).
-//   symbolic  : every payload value written to a TS leaf
+//   second output B with apply_delta (exactly what dense_record_impl / replay_impl do per cycle, including
+//   the delta_is_observable filter of the recorder).
+//   symbolic  : every payload value written to a TS leaf / pushed to a window
 //   enumerated: schema shape, which children / keys tick, key-set primitives per cycle (add, remove,
-//               touch = explicitly empty tick, erase, remove+re-add in one cycle, add+remove in one cycle),
-//               gaps (cycles without a tick)
-//   oracle    : after every cycle B ticked iff A ticked; B.valid == A.valid; B.value == A.value;
+//               touch = explicitly empty tick, no-op add/remove, erase, remove+re-add in one cycle,
+//               add+remove in one cycle), gaps (cycles without a tick)
+//   oracle    : after every cycle B ticked iff A ticked (observably); B.valid == A.valid; B.value == A.value;
 //               B.delta_value == A.delta_value; capture_delta(inB) equals d; children (TSB/TSL fields,
-//               TSD keys) agree on modified / valid.
+//               TSD keys, TSS members) agree on membership / modified / valid / value.
+//   Two input classes are reported under their own assertion ids (see notes/C20.md):
+//     C20.empty_tick_reproduced                   - A ticks with an EMPTY set/dict delta while already valid
+//     C20.unticked_collection_field_stays_invalid - TSB with a set/dict field that never ticked
 #include "hk.h"
 
 #include <hgraph/types/time_series/ts_delta.h>
@@ -21,13 +25,13 @@
 #define NCYC 3  // cycles (ticks or gaps)
 #endif
 #ifndef NPRIM
-#define NPRIM 2  // key-set primitives per keyed collection per cycle
+#define NPRIM 2  // key-set primitives per root-level keyed collection per cycle (nested collections: 1)
 #endif
 #ifndef NKEYS
 #define NKEYS 2  // concrete key universe {1..NKEYS}
 #endif
 #ifndef SHAPES
-#define SHAPES 0x7f  // bit i enables shape i (see shape_schema)
+#define SHAPES 0x1ff  // bit i enables shape i (see shape_schema)
 #endif
 #ifndef VMAX
 #define VMAX 1000
@@ -38,7 +42,7 @@ using namespace hk;
 namespace {
 using BundleSet = TSB<"C20BundleSet", Field<"a", TS<Int>>, Field<"s", TSS<Int>>>;
 using BundleDict = TSB<"C20BundleDict", Field<"d", TSD<Int, TS<Int>>>, Field<"x", TS<Int>>>;
-constexpr int NSHAPES = 7;
+constexpr int NSHAPES = 9;
 
 const TSValueTypeMetaData *shape_schema(int shape) {
     switch (shape) {
@@ -48,21 +52,23 @@ const TSValueTypeMetaData *shape_schema(int shape) {
         case 3: return schema_descriptor<TSL<TS<Int>, 2>>::ts_meta();
         case 4: return schema_descriptor<BundleSet>::ts_meta();
         case 5: return schema_descriptor<TSD<Int, TSS<Int>>>::ts_meta();
-        default: return schema_descriptor<BundleDict>::ts_meta();
+        case 6: return schema_descriptor<BundleDict>::ts_meta();
+        case 7: return schema_descriptor<TSW<Int, 2, 1>>::ts_meta();
+        default: return schema_descriptor<TSL<TS<Int>>>::ts_meta();  // dynamic list
     }
 }
 
-bool g_empty_tick = false;      // some collection got an explicitly empty tick (touch) while already valid
-bool g_readd = false;           // a key removed and re-added in one cycle
-bool g_add_remove = false;      // a key added and removed again in one cycle
-bool g_removed = false;         // a live key removed
-bool g_child_only = false;      // only a child of an existing TSD key / TSB field / TSL element ticked
+bool g_empty_tick = false;   // a collection got an empty tick (touch / no-op add / no-op remove) while already valid
+bool g_readd = false;        // a key removed and re-added in one cycle
+bool g_add_remove = false;   // a key added and removed again in one cycle
+bool g_removed = false;      // a live key removed
+bool g_child_only = false;   // only a child of an existing TSD key / TSB field / TSL element ticked
 
 Value key_value(int k) { return Value{Int{k}}; }
 Int sym_val() { return verif_range("v", -VMAX, VMAX); }
 
 // ---- drivers: ordinary producer-side mutation of A (never through apply_delta) -------------------
-void drive(const TSOutputView &out, DateTime t, bool force);
+void drive(const TSOutputView &out, DateTime t, bool nested);
 
 void drive_ts(const TSOutputView &out, DateTime t) {
     Value v{sym_val()};
@@ -70,12 +76,13 @@ void drive_ts(const TSOutputView &out, DateTime t) {
     (void)m.copy_value_from(v.view());
 }
 
-// one key-set primitive on a TSS: 0 none, 1..NKEYS add k, NKEYS+1..2NKEYS remove k, 2NKEYS+1 touch
-void drive_tss(const TSOutputView &out, DateTime t, int nprim) {
+// key-set primitives on a TSS: 0 none, 1..NKEYS add k, NKEYS+1..2NKEYS remove k, 2NKEYS+1 touch
+// (must: the first primitive is not "none" - the element of a TSD key always ticks when it is upserted)
+void drive_tss(const TSOutputView &out, DateTime t, int nprim, bool must = false) {
     auto set = out.as_set();
     bool added_now[NKEYS + 1] = {}, removed_now[NKEYS + 1] = {};
     for (int p = 0; p < nprim; p++) {
-        int op = verif_choice("sop", 2 * NKEYS + 2);
+        int op = (must && p == 0) ? 1 + verif_choice("sop1", 2 * NKEYS + 1) : verif_choice("sop", 2 * NKEYS + 2);
         if (op == 0) break;
         bool was_valid = out.valid();
         auto m = set.begin_mutation(t);
@@ -85,6 +92,7 @@ void drive_tss(const TSOutputView &out, DateTime t, int nprim) {
             bool did = m.add(kv.view());
             if (did && removed_now[k]) g_readd = true;
             if (did) added_now[k] = true;
+            if (!did && was_valid) g_empty_tick = true;
         } else if (op <= 2 * NKEYS) {
             int k = op - NKEYS;
             Value kv = key_value(k);
@@ -92,6 +100,7 @@ void drive_tss(const TSOutputView &out, DateTime t, int nprim) {
             if (did && added_now[k]) g_add_remove = true;
             if (did && !added_now[k]) g_removed = true;
             if (did) removed_now[k] = true;
+            if (!did && was_valid) g_empty_tick = true;
         } else {
             m.touch();
             if (was_valid) g_empty_tick = true;
@@ -99,7 +108,7 @@ void drive_tss(const TSOutputView &out, DateTime t, int nprim) {
     }
 }
 
-// TSD primitives: 0 none, 1..NKEYS upsert k (child driven recursively), NKEYS+1..2NKEYS erase k, 2NKEYS+1 touch
+// TSD primitives: 0 none, 1..NKEYS upsert k (element driven recursively), NKEYS+1..2NKEYS erase k, 2NKEYS+1 touch
 void drive_tsd(const TSOutputView &out, DateTime t, int nprim) {
     auto dict = out.as_dict();
     const bool child_is_set = out.schema()->element_ts()->kind == TSTypeKind::TSS;
@@ -118,7 +127,7 @@ void drive_tsd(const TSOutputView &out, DateTime t, int nprim) {
             if (!existed) added_now[k] = true;
             auto child = m.at(kv.view());
             TSOutputView cv{out.output(), child, t};
-            if (child_is_set) drive_tss(cv, t, 1); else drive_ts(cv, t);
+            if (child_is_set) drive_tss(cv, t, 1, true); else drive_ts(cv, t);
         } else if (op <= 2 * NKEYS) {
             int k = op - NKEYS;
             Value kv = key_value(k);
@@ -138,28 +147,116 @@ void drive_indexed(const TSOutputView &out, DateTime t) {
     bool was_valid = out.valid();
     int ticked = 0;
     for (std::size_t i = 0; i < n; i++) {
-        if (!verif_bool("child")) continue;
         auto child = out.indexed_child_at(i);
-        drive(child, t, true);
-        ticked++;
+        const auto ck = child.schema()->kind;
+        if (ck == TSTypeKind::TS) {
+            if (!verif_bool("child")) continue;
+            drive_ts(child, t);
+            ticked++;
+        } else {
+            drive(child, t, true);
+            if (child.modified()) ticked++;
+        }
     }
     if (was_valid && ticked == 1) g_child_only = true;
 }
 
-void drive(const TSOutputView &out, DateTime t, bool force) {
-    switch (out.schema()->kind) {
+void drive_dynamic_list(const TSOutputView &out, DateTime t) {
+    // dynamic TSL<TS<int>>: tick element 0 and/or 1 (the list grows on first access; no holes)
+    int which = verif_choice("elems", 4);
+    auto list = out.as_list();
+    for (std::size_t i = 0; i < 2; i++) {
+        if (!((which >> i) & 1)) continue;
+        if (i > list.size()) continue;
+        auto child = list.at(i);
+        drive_ts(child, t);
+    }
+}
+
+void drive_window(const TSOutputView &out, DateTime t) {
+    if (!verif_bool("tick")) return;
+    Value v{sym_val()};
+    auto w = out.as_window();
+    w.begin_mutation(t).push(v.view());
+}
+
+void drive(const TSOutputView &out, DateTime t, bool nested) {
+    const auto *schema = out.schema();
+    switch (schema->kind) {
         case TSTypeKind::TS:
-            if (force || verif_bool("tick")) drive_ts(out, t);
+            if (verif_bool("tick")) drive_ts(out, t);
             break;
-        case TSTypeKind::TSS: drive_tss(out, t, force ? 1 : NPRIM); break;
-        case TSTypeKind::TSD: drive_tsd(out, t, force ? 1 : NPRIM); break;
+        case TSTypeKind::TSS: drive_tss(out, t, nested ? 1 : NPRIM); break;
+        case TSTypeKind::TSD: drive_tsd(out, t, nested ? 1 : NPRIM); break;
+        case TSTypeKind::TSW: drive_window(out, t); break;
+        case TSTypeKind::TSL:
+            if (schema->fixed_size() == 0) { drive_dynamic_list(out, t); break; }
+            drive_indexed(out, t);
+            break;
         default: drive_indexed(out, t); break;
+    }
+}
+
+// ---- classification of the two reported input classes --------------------------------------------
+bool set_delta_empty(const ValueView &d) {
+    auto b = d.as_bundle();
+    return b.at(0).as_indexed_view().size() == 0 && b.at(1).as_indexed_view().size() == 0;
+}
+bool dict_delta_empty(const ValueView &d) {
+    auto b = d.as_bundle();
+    return b.at(0).as_indexed_view().size() == 0 && b.at(1).as_map().size() == 0;
+}
+struct CycleClass {
+    bool dedup = false;     // d carries an empty set/dict delta for a position that ticked in A and is already valid in B
+    bool validate = false;  // d carries an empty set/dict delta for a TSB field that never ticked in A (invalid in A and in B)
+};
+void classify(const TSValueTypeMetaData *schema, const ValueView &d, const TSInputView &a, const TSOutputView &bpre, CycleClass &cc) {
+    if (!d.has_value()) return;
+    switch (schema->kind) {
+        case TSTypeKind::TSS:
+            if (a.modified() && bpre.valid() && set_delta_empty(d)) cc.dedup = true;
+            break;
+        case TSTypeKind::TSD: {
+            if (a.modified() && bpre.valid() && dict_delta_empty(d)) cc.dedup = true;
+            auto bundle = d.as_bundle();
+            auto removed = bundle.at(0).as_indexed_view();
+            auto modified = bundle.at(1).as_map();
+            auto da = a.as_dict();
+            auto db = bpre.as_dict();
+            for (int k = 1; k <= NKEYS; k++) {
+                Value kv = key_value(k);
+                if (!modified.contains(kv.view()) || !db.contains(kv.view()) || !da.contains(kv.view())) continue;
+                bool re_created = false;
+                for (std::size_t i = 0; i < removed.size(); i++) re_created |= removed.at(i).equals(kv.view());
+                if (re_created) continue;
+                auto ca = da.at(kv.view());
+                auto cb = db.at(kv.view());
+                classify(schema->element_ts(), modified.at(kv.view()), ca, cb, cc);
+            }
+            break;
+        }
+        case TSTypeKind::TSB: {
+            auto bundle = d.as_bundle();
+            for (std::size_t i = 0; i < schema->field_count(); i++) {
+                const auto *fs = schema->fields()[i].type;
+                auto ca = a.indexed_child_at(i);
+                auto cb = bpre.indexed_child_at(i);
+                auto fd = bundle.at(i);
+                if (!fd.has_value()) continue;
+                const bool coll = fs->kind == TSTypeKind::TSS || fs->kind == TSTypeKind::TSD;
+                if (coll && !ca.valid() && !ca.modified() && !cb.valid()) { cc.validate = true; continue; }
+                if (ca.modified()) classify(fs, fd, ca, cb, cc);
+            }
+            break;
+        }
+        default: break;
     }
 }
 
 // ---- oracle -------------------------------------------------------------------------------------
 struct Acc {
-    bool same_cycles = true, empty_tick = true, valid = true, value = true, delta = true, recapture = true, children = true;
+    bool same_cycles = true, valid = true, value = true, delta = true, recapture = true, children = true, children_modified = true;
+    bool empty_tick = true, unticked_field = true;
 };
 
 bool views_equal(const ValueView &a, const ValueView &b) {
@@ -168,64 +265,45 @@ bool views_equal(const ValueView &a, const ValueView &b) {
     return a.equals(b);
 }
 
-bool delta_is_empty(const TSValueTypeMetaData *schema, const ValueView &d) {
-    if (!d.has_value()) return true;
-    switch (schema->kind) {
-        case TSTypeKind::TSS: {
-            auto b = d.as_bundle();
-            return b.at(0).as_indexed_view().size() == 0 && b.at(1).as_indexed_view().size() == 0;
-        }
-        case TSTypeKind::TSD: {
-            auto b = d.as_bundle();
-            return b.at(0).as_indexed_view().size() == 0 && b.at(1).as_map().size() == 0;
-        }
-        case TSTypeKind::TSL: return d.as_map().size() == 0;
-        case TSTypeKind::TSB: {
-            auto b = d.as_bundle();
-            for (std::size_t i = 0; i < schema->field_count(); i++)
-                if (!delta_is_empty(schema->fields()[i].type, b.at(i))) return false;
-            return true;
-        }
-        default: return false;
-    }
-}
-
-void compare_children(const TSInputView &a, const TSInputView &b, Acc &acc) {
+struct ChildCmp { bool state = true, modified = true; };
+void compare_children(const TSInputView &a, const TSInputView &b, ChildCmp &c) {
     const auto kind = a.schema()->kind;
     if (kind == TSTypeKind::TSB || kind == TSTypeKind::TSL) {
         const std::size_t n = a.data_view().indexed_child_count();
-        acc.children &= (b.data_view().indexed_child_count() == n);
+        c.state &= (b.data_view().indexed_child_count() == n);
+        if (b.data_view().indexed_child_count() != n) return;
         for (std::size_t i = 0; i < n; i++) {
             auto ca = a.indexed_child_at(i);
             auto cb = b.indexed_child_at(i);
-            acc.children &= (ca.valid() == cb.valid());
-            acc.children &= (ca.modified() == cb.modified());
-            if (ca.valid() && cb.valid()) acc.children &= views_equal(ca.value(), cb.value());
-            compare_children(ca, cb, acc);
+            c.state &= (ca.valid() == cb.valid());
+            c.modified &= (ca.modified() == cb.modified());
+            if (ca.valid() && cb.valid()) c.state &= views_equal(ca.value(), cb.value());
+            compare_children(ca, cb, c);
         }
     } else if (kind == TSTypeKind::TSD) {
         auto da = a.as_dict();
         auto db = b.as_dict();
-        acc.children &= (da.size() == db.size());
+        c.state &= (da.size() == db.size());
         for (int k = 1; k <= NKEYS; k++) {
             Value kv = key_value(k);
             bool ina = da.contains(kv.view()), inb = db.contains(kv.view());
-            acc.children &= (ina == inb);
+            c.state &= (ina == inb);
             if (ina && inb) {
                 auto ca = da.at(kv.view());
                 auto cb = db.at(kv.view());
-                acc.children &= (ca.valid() == cb.valid());
-                acc.children &= (ca.modified() == cb.modified());
-                if (ca.valid() && cb.valid()) acc.children &= views_equal(ca.value(), cb.value());
+                c.state &= (ca.valid() == cb.valid());
+                c.modified &= (ca.modified() == cb.modified());
+                if (ca.valid() && cb.valid()) c.state &= views_equal(ca.value(), cb.value());
+                compare_children(ca, cb, c);
             }
         }
     } else if (kind == TSTypeKind::TSS) {
         auto sa = a.as_set();
         auto sb = b.as_set();
-        acc.children &= (sa.size() == sb.size());
+        c.state &= (sa.size() == sb.size());
         for (int k = 1; k <= NKEYS; k++) {
             Value kv = key_value(k);
-            acc.children &= (sa.contains(kv.view()) == sb.contains(kv.view()));
+            c.state &= (sa.contains(kv.view()) == sb.contains(kv.view()));
         }
     }
 }
@@ -246,7 +324,7 @@ extern "C" int harness_main() {
 
     Acc acc;
     int ticks = 0, gaps = 0;
-    bool gap_then_tick = false;
+    bool gap_then_tick = false, tainted = false, saw_dedup = false;
     for (int c = 0; c < NCYC; c++) {
         DateTime t = MIN_ST + TimeDelta{c};
         {
@@ -255,17 +333,17 @@ extern "C" int harness_main() {
         }
         auto ia = inA.view(nullptr, t);
         const bool a_mod = ia.modified();
-        bool observable = false, d_empty = false;
-        const bool b_was_valid = B.view(t).valid();
+        bool observable = false;
+        CycleClass cc;
         Value d;
         if (a_mod) {
             // what dense_record_impl does ...
             d = capture_delta(ia);
             observable = delta_is_observable(ia, d.view());
-            d_empty = delta_is_empty(schema, d.view());
             // ... and what replay_impl does with the recorded element
             if (observable) {
                 auto bv = B.view(t);
+                classify(schema, d.view(), ia, bv, cc);
                 apply_delta(bv, d.view());
             }
             ticks++;
@@ -273,36 +351,57 @@ extern "C" int harness_main() {
         } else {
             gaps++;
         }
+        tainted |= cc.validate;
+        saw_dedup |= cc.dedup;
         auto ib = inB.view(nullptr, t);
         const bool b_mod = ib.modified();
 #ifdef C20_DEBUG
-        std::fprintf(stderr, "c=%d A: mod=%d valid=%d value=%s delta=%s | d=%s obs=%d empty=%d | B: mod=%d valid=%d value=%s delta=%s\n", c, (int)a_mod,
+        std::fprintf(stderr, "c=%d A: mod=%d valid=%d value=%s delta=%s | d=%s obs=%d dedup=%d validate=%d | B: mod=%d valid=%d value=%s delta=%s\n", c, (int)a_mod,
                      (int)ia.valid(), ia.valid() ? ia.value().to_string().c_str() : "-", a_mod && ia.delta_value().has_value() ? ia.delta_value().to_string().c_str() : "-",
-                     a_mod && d.view().has_value() ? d.view().to_string().c_str() : "-", (int)observable, (int)d_empty, (int)b_mod, (int)ib.valid(),
+                     a_mod && d.view().has_value() ? d.view().to_string().c_str() : "-", (int)observable, (int)cc.dedup, (int)cc.validate, (int)b_mod, (int)ib.valid(),
                      ib.valid() ? ib.value().to_string().c_str() : "-", b_mod && ib.delta_value().has_value() ? ib.delta_value().to_string().c_str() : "-");
 #endif
-        // same cycles: B ticks exactly when A produced an observable (= recorded) tick.  One class is kept
-        // under its own id: an empty structural delta recorded from an already valid collection that is
-        // applied to an already valid copy (apply_delta de-duplicates it: no tick).
-        const bool want_tick = a_mod && observable;
-        if (want_tick && d_empty && b_was_valid && !b_mod) acc.empty_tick = false;
-        else acc.same_cycles &= (b_mod == want_tick);
-        acc.valid &= (ib.valid() == ia.valid());
-        if (ia.valid() && ib.valid()) acc.value &= views_equal(ia.value(), ib.value());
+        // ---- per-cycle comparison, then attribution to assertion ids
+        const bool want_tick = a_mod && observable;  // B ticks exactly when A produced a recorded tick
+        bool ok_cycles = (b_mod == want_tick);
+        bool ok_valid = (ib.valid() == ia.valid());
+        bool ok_value = true, ok_delta = true, ok_recapture = true;
+        if (ia.valid() && ib.valid()) ok_value = views_equal(ia.value(), ib.value());
         if (a_mod && b_mod) {
-            acc.delta &= views_equal(ia.delta_value(), ib.delta_value());
+            ok_delta = views_equal(ia.delta_value(), ib.delta_value());
             Value d2 = capture_delta(ib);
-            acc.recapture &= views_equal(d.view(), d2.view());
+            ok_recapture = views_equal(d.view(), d2.view());
         }
-        compare_children(ia, ib, acc);
+        ChildCmp ch;
+        compare_children(ia, ib, ch);
+        if (tainted) {
+            // B's never-ticked set/dict field was validated by the replayed default delta: A and B differ from here on
+            acc.unticked_field &= ok_cycles & ok_valid & ok_value & ok_delta & ok_recapture & ch.state & ch.modified;
+        } else if (cc.dedup) {
+            // state must still agree; only tick-ness / delta shape may differ, and only because of the de-duplicated empty delta
+            acc.valid &= ok_valid;
+            acc.value &= ok_value;
+            acc.children &= ch.state;
+            acc.empty_tick &= ok_cycles & ok_delta & ok_recapture & ch.modified;
+        } else {
+            acc.same_cycles &= ok_cycles;
+            acc.valid &= ok_valid;
+            acc.value &= ok_value;
+            acc.delta &= ok_delta;
+            acc.recapture &= ok_recapture;
+            acc.children &= ch.state;
+            acc.children_modified &= ch.modified;
+        }
     }
     verif_assert(acc.same_cycles, "C20.same_cycles");
-    verif_assert(acc.empty_tick, "C20.empty_tick_reproduced");
     verif_assert(acc.valid, "C20.same_validity");
     verif_assert(acc.value, "C20.same_value");
     verif_assert(acc.delta, "C20.same_delta");
     verif_assert(acc.recapture, "C20.recapture_equals_delta");
-    verif_assert(acc.children, "C20.children_agree");
+    verif_assert(acc.children, "C20.children_state_agrees");
+    verif_assert(acc.children_modified, "C20.children_modified_agrees");
+    verif_assert(acc.empty_tick, "C20.empty_tick_reproduced");
+    verif_assert(acc.unticked_field, "C20.unticked_collection_field_stays_invalid");
 
     if (ticks >= 2) verif_reach("two_ticks");
     if (gap_then_tick) verif_reach("gap_then_tick");
@@ -311,6 +410,8 @@ extern "C" int harness_main() {
     if (g_add_remove) verif_reach("key_added_and_removed_same_cycle");
     if (g_empty_tick) verif_reach("empty_structural_tick");
     if (g_child_only) verif_reach("child_only_tick");
+    if (saw_dedup) verif_reach("class_empty_delta_on_valid_collection");
+    if (tainted) verif_reach("class_unticked_collection_field");
     verif_log("shape", shape);
     verif_log("ticks", ticks);
     verif_reach("end");
